@@ -224,13 +224,7 @@ def classify(src, ptoks, kind, detail):
     ):
         return "F10f"
     neutral = src
-    marks = _debug_markers(src, ptoks)
-    if marks:
-        for a, b in sorted(marks, reverse=True):
-            neutral = neutral[:a] + neutral[b:]
-        if _passes(neutral):
-            return "F10e"
-    n2 = strip_deep_specs(neutral, gen_py.py_tokens(neutral) or ptoks) if neutral != src else strip_deep_specs(src, ptoks)
+    n2 = strip_deep_specs(src, ptoks)
     if n2 is not None and n2 != neutral and _passes(n2):
         return "F10c"
     return None
